@@ -52,8 +52,7 @@ Pass 5 (classes 29-36): default-constructed optimizers interleaved and compared 
 documented defaults (`defaults`); identical histories repeated after every other operation ran in the process (`repeat`);
 models that return a parameter / a view of one / their input / the same tensor twice; targets of every dtype torch promotes
 (int8 … int64, uint8, float16, bfloat16, float32 for float64 models); `weight` as a property of a user subclass; SPD weights
-at relative distance 1e-3 … 1e-14 from I / c·I / a diagonal / one common block and weights with a 1e-6 relative asymmetry
-(hidden `allclose` fast paths, seed C07-5); update_parameter and the correctors at 2^17+37 items (quick), 2^18+1, 2^18+37,
+at relative distance 1e-3 … 1e-14 from I / c·I / a diagonal / one common block (hidden `allclose` fast paths, seed C07-5); update_parameter and the correctors at 2^17+37 items (quick), 2^18+1, 2^18+37,
 2^20+1 (thorough) with cuts at the last multiple of 2^k and every item against the float64 reference.
 Degenerate situations are counted, not judged (input_distribution `degenerate.*`): non-finite forward pass after a
 deliberately bad trial step, |D| > 1e4 (Exp loses its phase / overflows), damped diagonal beyond the dtype's range.
@@ -163,20 +162,24 @@ class InjectedError(RuntimeError):
     """raised on purpose by a recording solver / corrector (a user callback that fails)"""
 
 
+# (48) every attribute the harness puts on an object that may derive from a shipped class (user_subclass mixes the recorders
+# into PINV / Cholesky / TrustRegion / FastTriggs …) carries the prefix `vfh07_`, so that a library refactor that introduces
+# a private helper or attribute (`_jac`, `log`, `opt`, …) cannot collide with it; only the public names the library itself
+# reads are kept (`forward`, `update`, `defaults`, `update_parameter`, the property `weight`)
 class RecCorr(nn.Module):
     def __init__(self, inner, tag, log, box=None):
         nn.Module.__init__(self)        # (not super(): the recorder may be mixed into a shipped class, see user_subclass)
-        self.inner, self.tag, self.log = inner, tag, log
-        self.box = box if box is not None else {}
+        self.vfh07_inner, self.vfh07_tag, self.vfh07_log = inner, tag, log
+        self.vfh07_box = box if box is not None else {}
 
     def forward(self, R, J):
-        if self.box.get("raise_corr") == self.box.get("n_corr_calls", 0):
-            self.box["n_corr_calls"] = self.box.get("n_corr_calls", 0) + 1
+        if self.vfh07_box.get("raise_corr") == self.vfh07_box.get("n_corr_calls", 0):
+            self.vfh07_box["n_corr_calls"] = self.vfh07_box.get("n_corr_calls", 0) + 1
             raise InjectedError("injected: the user's corrector raises")
-        self.box["n_corr_calls"] = self.box.get("n_corr_calls", 0) + 1
-        out = self.inner(R=R, J=J)
+        self.vfh07_box["n_corr_calls"] = self.vfh07_box.get("n_corr_calls", 0) + 1
+        out = self.vfh07_inner(R=R, J=J)
         Rc, Jc = out
-        self.log.append({"tag": self.tag, "R": raw(R).clone(), "J": raw(J).clone(), "Rc": raw(Rc).clone(), "Jc": raw(Jc).clone()})
+        self.vfh07_log.append({"tag": self.vfh07_tag, "R": raw(R).clone(), "J": raw(J).clone(), "Rc": raw(Rc).clone(), "Jc": raw(Jc).clone()})
         return Rc, Jc
 
 
@@ -195,41 +198,41 @@ def user_subclass(rec_cls, inner):
 class RecSolver(nn.Module):
     def __init__(self, inner, log):
         nn.Module.__init__(self)
-        self.inner, self.log = inner, log
-        self.opt = None
-        self.bad = []          # factors for the first calls of the current step
-        self.raise_at = None   # index of the solver call (within the current step) that raises
+        self.vfh07_inner, self.vfh07_log = inner, log
+        self.vfh07_opt = None
+        self.vfh07_bad = []          # factors for the first calls of the current step
+        self.vfh07_raise_at = None   # index of the solver call (within the current step) that raises
 
     def forward(self, A, b):
-        pg = self.opt.param_groups[0]
+        pg = self.vfh07_opt.param_groups[0]
         rec = {"A": raw(A).clone(), "b": raw(b).clone(), "damping": pg.get("damping"), "min": pg.get("min"), "max": pg.get("max"),
                "params": [raw(p).clone() for p in pg["params"]]}
-        k = len(self.log)
-        self.log.append(rec)
-        if self.raise_at is not None and k == self.raise_at:
+        k = len(self.vfh07_log)
+        self.vfh07_log.append(rec)
+        if self.vfh07_raise_at is not None and k == self.vfh07_raise_at:
             rec["raised"] = "InjectedError"
             raise InjectedError("injected: the user's solver raises")
         try:
-            D = self.inner(A=A, b=b)
+            D = self.vfh07_inner(A=A, b=b)
         except Exception as e:      # LM prints the message and breaks out of its loop (property C08 / C10)
             rec["raised"] = f"{type(e).__name__}: {str(e)[:120]}"
             raise
         rec["D_true"] = raw(D).clone()
-        if k < len(self.bad) and self.bad[k] is not None:
-            D = D * self.bad[k]
+        if k < len(self.vfh07_bad) and self.vfh07_bad[k] is not None:
+            D = D * self.vfh07_bad[k]
         rec["D"] = raw(D).clone()
         return D
 
 
 class RecStrategy:
     def __init__(self, inner, log):
-        self.inner, self.log = inner, log
+        self.vfh07_inner, self.vfh07_log = inner, log
         self.defaults = inner.defaults
 
     def update(self, pg, last, loss, J, D, R, *a, **kw):
-        self.log.append({"params": [raw(p).clone() for p in pg["params"]], "J": raw(J).clone(), "D": raw(D).clone(),
+        self.vfh07_log.append({"params": [raw(p).clone() for p in pg["params"]], "J": raw(J).clone(), "D": raw(D).clone(),
                          "R": raw(R).clone(), "last": float(last), "loss": float(loss)})
-        return self.inner.update(pg, last=last, loss=loss, J=J, D=D, R=R)
+        return self.vfh07_inner.update(pg, last=last, loss=loss, J=J, D=D, R=R)
 
 
 # ----------------------------------------------------------------------------- building the optimizer of a case
@@ -487,7 +490,7 @@ def build_env(case):
     env.user_corr = corr
     env.default_solver = type(opt.solver).__name__
     env.solver = (user_subclass(RecSolver, opt.solver) if sub else RecSolver)(opt.solver, env.sol_log)
-    env.solver.opt = opt
+    env.solver.vfh07_opt = opt
     opt.solver = env.solver
     env.n_corr = len(opt.corrector)
     env.corr_inner = list(opt.corrector)
@@ -988,7 +991,7 @@ def _check_case_gen(ctx: Ctx, case, pending):
             st["ok"] = False
             return "stop"
         env.corr_log.clear(); env.sol_log.clear(); env.str_log.clear()
-        env.solver.bad = list(call.get("bad") or [])
+        env.solver.vfh07_bad = list(call.get("bad") or [])
         wstep = env.wstep
         weff_t = env.wstep if call.get("weight", "none") == "step" else env.wctor
         weff = None if weff_t is None else [w_.clone() for w_ in weff_t]       # logical values at call time
@@ -1003,7 +1006,7 @@ def _check_case_gen(ctx: Ctx, case, pending):
         prev_loss = float(opt.loss) if hasattr(opt, "loss") else None
         # (11) a user callback that fails / a documented argument check that fires
         inj = call.get("raise") or {}
-        env.solver.raise_at = inj.get("at") if inj.get("where") == "solver" else None
+        env.solver.vfh07_raise_at = inj.get("at") if inj.get("where") == "solver" else None
         env.box.clear()
         if inj.get("where") == "corrector":
             env.box["raise_corr"] = inj.get("at", 0)
@@ -1161,6 +1164,20 @@ def _check_case_gen(ctx: Ctx, case, pending):
             return "stop"
 
         if not all(bool(torch.isfinite(c_[k_]).all()) for c_ in env.corr_log for k_ in ("R", "J", "Rc", "Jc")):
+            # (38) the forward pass and the parameters are finite here (checked above).  With moderate magnitudes nothing in
+            # R = f - y, the Jacobian or the corrector may be NaN / inf: that is a failure with this input, not a degenerate
+            # case.  Only after (deliberately bad) earlier trial steps pushed the parameters beyond 1e6 — where squares
+            # overflow in float32 and the closed-form coefficients lose all accuracy — it is counted instead.
+            pmax = max([float(p_.abs().max()) for p_ in before if p_.numel()] + [0.0])
+            omax = max([float(o_.abs().max()) for o_ in outs0 if o_.numel()] + [0.0])
+            tmax = max([float(raw(t_).double().abs().max()) for t_ in (getattr(env, "target_list", None) or []) if t_ is not None and raw(t_).numel()] + [0.0])
+            if max(pmax, omax, tmax) <= 1e6:
+                which = [f"{k_} of residual {i_}" for i_, c_ in enumerate(env.corr_log) for k_ in ("R", "J", "Rc", "Jc")
+                         if not bool(torch.isfinite(c_[k_]).all())]
+                ctx.fail(cd, f"non-finite: finite parameters / inputs / targets (|values| <= {max(pmax, omax, tmax):.3g}) give non-finite "
+                             f"{which[:4]} (R, J = residual and Jacobian handed to the corrector; Rc, Jc = what it returned) ({tag})")
+                st["ok"] = False
+                return "stop"
             ctx.count("degenerate.nonfinite-residual")
             return "stop"
 
@@ -1345,7 +1362,7 @@ def _check_case_gen(ctx: Ctx, case, pending):
                             lim[r0:r1, c0:c1] = (tolj * gsc) if f32 else (tolj * bsc + 1e-9 * (1.0 + omag) + 1e-11 * (1.0 + vmag) ** 2 + fd_noise)
                             c0 = c1
                         r0 = r1
-                    if bool((err > lim).any()):
+                    if not bool((err <= lim).all()):      # (38) NaN-safe polarity: a NaN entry fails
                         # re-judge with Richardson extrapolation on every column before calling it a failure
                         try:
                             Jfd2, rel2 = G.fd_jacobian(ecase, before, full=True)
@@ -1357,8 +1374,8 @@ def _check_case_gen(ctx: Ctx, case, pending):
                             err = torch.zeros_like(err)
                         else:
                             err = (Jobs - Jfd2).abs()
-                    if bool((err > lim).any()):
-                        ratio = err / lim
+                    if not bool((err <= lim).all()):      # (38) NaN-safe polarity: a NaN entry fails
+                        ratio = torch.nan_to_num(err / lim, nan=float("inf"))
                         ij = (ratio == ratio.max()).nonzero()[0].tolist()
                         ctx.fail(cd, f"jac: Jacobian seen by the optimizer differs from the tangent-space finite-difference Jacobian "
                                      f"by {float(err[ij[0], ij[1]]):.3e} (allowed {float(lim[ij[0], ij[1]]):.3e}) at row/col {ij} ({tag})")
@@ -1547,7 +1564,7 @@ def _check_case_gen(ctx: Ctx, case, pending):
             # squares of the entries must stay inside the dtype's normal range (a kernel derivative like e^-x can push
             # the corrected Jacobian to 1e-135: AᵀA underflows and the residual of the normal equations means nothing)
             well = well and (1e-60 < smax < 1e60 if not f32 else 1e-12 < smax < 1e12)
-            if well and float(gres.abs().max()) > lim * max(1.0, (smax / float(pos.min())) ** 2):
+            if well and not (float(gres.abs().max()) <= lim * max(1.0, (smax / float(pos.min())) ** 2)):
                 ctx.fail(cd, f"solve: D returned by {case['solver']} does not satisfy the normal equations of (A, b): "
                              f"|Aᵀ(AD-b)| = {float(gres.abs().max()):.3e} > {lim:.3e} (trial {k_ + 1}) ({tag})")
                 st["ok"] = False
@@ -1603,8 +1620,8 @@ def _check_case_gen(ctx: Ctx, case, pending):
                 if kind == "G":   # quaternion sign is a representation detail only if both signs are the same rotation
                     pass
                 err = (av - rv).abs()
-                if bool((err > t_ * 4).any()):
-                    j = int((err / (t_ * 4 + 1e-300)).reshape(-1).argmax())
+                if not bool((err <= t_ * 4).all()):      # (38) a NaN / inf parameter after a finite, moderate step fails
+                    j = int(torch.nan_to_num(err / (t_ * 4 + 1e-300), nan=float("inf")).reshape(-1).argmax())
                     ctx.fail(cd, f"update: parameter {pi} ({kind}{'/' + g if g else ''}) after {what} is not "
                                  f"{'Exp(d[:m])·X' if kind == 'G' else 'x + d'} with its own slice of D: error {float(err.reshape(-1)[j]):.3e} "
                                  f"> {float(t_.reshape(-1)[j] * 4):.3e} at flat index {j} ({tag})")
@@ -2133,7 +2150,7 @@ def make_case(rng, **force):
     # weights
     wmode = force.get("wmode", rng.choice(["none", "none", "ctor", "ctor", "step", "both"]))
     wkw = dict(layouts=force.get("wlayouts", 0.2), wide=rng.random() < force.get("wide", 0.06) * 2, layout=force.get("wlayout"),
-               alias=force.get("alias", 0.3), zero_block=force.get("zero_block", 0.04), asym=force.get("asym", 0.06) if dtype == "float64" else 0.0,
+               alias=force.get("alias", 0.3), zero_block=force.get("zero_block", 0.04), asym=force.get("asym", 0.0) if dtype == "float64" else 0.0,
                near=force.get("near", 0.25), near_base=force.get("near_base"), near_rel=force.get("near_rel"))
     case["weight_ctor"] = gen_weight(rng, shapes, dtype, force.get("wsuffix"), **wkw) if wmode in ("ctor", "both") else None
     case["weight_step"] = gen_weight(rng, shapes, dtype, force.get("wsuffix"), **wkw) if wmode in ("step", "both") else None
@@ -2641,7 +2658,8 @@ def run_large_update(ctx: Ctx, pending):
         sigmas = [0.0, eps, -eps, 1e-9, -0.5, 0.5, 2.0]
         step = torch.zeros(N, gd, dtype=torch.float64)
         dirs = torch.nn.functional.normalize(torch.randn(N, 3, generator=gen, dtype=torch.float64), dim=1)
-        dirs[::7] = torch.tensor([1.0, 0.0, 0.0], dtype=torch.float64)           # axis-aligned: |phi| is exactly the ladder value
+        dirs[::5] = torch.tensor([1.0, 0.0, 0.0], dtype=torch.float64)           # axis-aligned: |phi| is EXACTLY the ladder value (period 5 is
+        # coprime to the ladder's 14, so every rung — |phi| == eps and |phi| == 0.05, the two branch thresholds — is met exactly)
         th = torch.tensor([thetas[i_ % len(thetas)] for i_ in range(N)], dtype=torch.float64)
         th[-1] = 0.3; th[0] = 0.03
         psl = U.PHISL[g]
@@ -2663,6 +2681,11 @@ def run_large_update(ctx: Ctx, pending):
             return raw(prm).clone()
         try:
             whole = upd(X, step)
+            if not bool(torch.isfinite(whole).all()):       # (38) finiteness first: NaN != NaN would only show as a "split" mismatch
+                j_ = int((~torch.isfinite(whole)).any(1).nonzero()[0])
+                ctx.fail(case, f"non-finite: update_parameter on {N} {g} items gives a non-finite item {j_} for the finite step "
+                               f"{step[j_].tolist()[:ad]} (|phi| = {float(th[j_]):.17g}, machine eps {eps:.17g})")
+                continue
             ok_ = True
             for a_ in sorted({1, N // 2, N - 1, 1 << (N.bit_length() - 1)} | {(N >> k_) << k_ for k_ in (12, 16, 17, 18)}):
                 if 0 < a_ < N and not torch.equal(whole, torch.cat([upd(X[:a_], step[:a_]), upd(X[a_:], step[a_:])])):
@@ -2715,8 +2738,8 @@ def run_large_update(ctx: Ctx, pending):
         ref_all, _ = indep_update(fake_all, [X], step.reshape(-1))
         tol_all = update_tolerances(fake_all, [X], ref_all, step.reshape(-1), eps, FLOOR[dt_])[0]
         err = (whole.double() - ref_all[0].double()).abs()
-        if bool((err > 4 * tol_all).any()):
-            j_ = int((err / (4 * tol_all + 1e-300)).amax(1).argmax())
+        if not bool((err <= 4 * tol_all).all()):
+            j_ = int(torch.nan_to_num(err / (4 * tol_all + 1e-300), nan=float("inf")).amax(1).argmax())
             ctx.fail(case, f"update: item {j_} of a {N}-item {g} parameter is not Exp(d[:m])·X of the float64 reference to round-off "
                            f"(error {float(err[j_].max()):.3e}, |phi| = {float(th[j_]):.3e})")
         ctx.note_case(("large-update", g, N, dt_), True)
@@ -2754,6 +2777,13 @@ def run_large_corrector(ctx: Ctx):
                 return raw(a_).clone(), raw(b_).clone()
             try:
                 Rw, Jw = corr(R, J)
+                if not bool(torch.isfinite(Rw).all()) or not bool(torch.isfinite(Jw).all()):      # (38) finiteness before any comparison
+                    j_ = int((~torch.isfinite(Rw)).any(1).nonzero()[0]) if not bool(torch.isfinite(Rw).all()) \
+                        else int((~torch.isfinite(Jw)).any(1).nonzero()[0]) // 2
+                    ctx.fail(case, f"non-finite: {cname}({kspec['name']}) returns a non-finite corrected residual / Jacobian for the finite "
+                                   f"residual item {j_} = {R[j_].tolist()} of {N}")
+                    ctx.note_case(("large-corrector", cname, kspec["name"], dt_, N), True)
+                    continue
                 scR = R.double().abs().amax(1, keepdim=True) + 1e-300
                 okc = True
                 for k_ in (16, 12, 17, 18, 20):
@@ -2898,7 +2928,7 @@ def run_repeat(ctx: Ctx, pending):
         out = []
         for ci, call in enumerate(c["calls"]):
             setup_call(env, ci)
-            env.sol_log.clear(); env.solver.bad = list(call.get("bad") or [])
+            env.sol_log.clear(); env.solver.vfh07_bad = list(call.get("bad") or [])
             with contextlib.redirect_stdout(io.StringIO()), warnings.catch_warnings():
                 warnings.simplefilter("ignore")
                 try:
@@ -3130,10 +3160,12 @@ def corner_cases(quick=True):
     for td_ in ("int64", "int32", "int16", "int8", "uint8", "float16", "bfloat16", "float32"):
         for opt, dt_ in ((("GN", "float64"), ("LM", "float32" if td_ != "float32" else "float64"))[len(out) % 2],):
             out.append(make_case(rng, opt=opt, target="near", tscale=1.0, ncalls=1, nbad=0, **{**q5, "dtype": dt_, "tdtypes": 1.0, "tdtype": td_}))
-    # (36) nearly symmetric weights, nearly equal items, tiny scale factors (diagonal entries between 0 and `min`)
+    # (36) nearly equal items, tiny scale factors (diagonal entries between 0 and `min`).  NOT nearly symmetric weights: the
+    # property quantifies over symmetric positive definite weights, an asymmetric weight is outside its domain (transposing
+    # the blocks, or symmetrising them, is a harmless rewrite there) — the `asym` generator is kept but switched off
     for opt in ("GN", "LM"):
         for ws in (1, 2):
-            out.append(make_case(rng, opt=opt, wmode="step", wsuffix=ws, ncalls=1, nbad=1, **{**q5, "dtype": "float64", "asym": 1.0}))
+            out.append(make_case(rng, opt=opt, wmode="step", wsuffix=ws, ncalls=1, nbad=1, **{**q5, "dtype": "float64", "asym": 0.0}))
         c = make_case(rng, opt=opt, bshape=[3], full=True, ncalls=1, nbad=0, **{**q5, "dup": 1.0, "dup_near": 1.0, "dtype": "float64"})
         out.append(c)
         out.append(make_case(rng, opt=opt, ptypes=[["S"], ["E", 3], ["G", "SO3"]], nres=2, ncalls=1, nbad=1, **{**q5, "dtype": "float64", "wide": 1.0}))
@@ -3158,11 +3190,11 @@ def corner_cases(quick=True):
         out.append(make_case(rng, opt=opt, wmode="both", ncalls=2, nbad=0, **{**q5, "subclass": 1.0, "prop_weight": 1.0}))
     if quick:
         # the finite-difference Jacobian oracle is the expensive part (two forward passes per tangent column): in the quick tier
-        # the corpus uses it on the first call of a history only, and not at all in the pass-5 cases about weights / dtypes /
+        # the corpus uses it on the first call of every second history only, and not at all in the pass-5 cases about weights / dtypes /
         # defaults (the Jacobian is still compared with the model's column layout and enters every system check)
         for k_, c in enumerate(out):
             for ci, call in enumerate(c["calls"]):
-                call["jac_check"] = bool(call.get("jac_check", True)) and ci == 0 and (k_ < n5 + 15)
+                call["jac_check"] = bool(call.get("jac_check", True)) and ci == 0 and (k_ < n5 + 15) and (k_ % 2 == 0 or k_ >= n5)
     # frozen parameter (known defect on the current tree)
     out.append(make_case(rng, opt="GN", ptypes=[["E", 3], ["G", "SE3"]], frozen=[True, False], dtype="float64"))
     out.append(make_case(rng, opt="LM", ptypes=[["G", "SO3"], ["A", "SE3"], ["S"]], frozen=[False, True, False], dtype="float64"))
